@@ -1138,3 +1138,20 @@ def _builtin_symbols_closed(ctx):
     ctx.obligation('the builtin symbols are closed under references (%d symbols)' % len(table), closed(table),
                    'enumeration', detail={'names': sorted(table)})
     ctx.obligation('builtin symbol names are distinct', len(table) == len(builtin_symbols.ALL), 'enumeration')
+
+
+# ====================================================================================== string or bare reference
+# "substituted faithfully": a list symbol referenced from within a string (`"@[l]@"`, `x@[l]@`) is its elements
+# joined by a space, while a BARE reference in a list (`@[l]@`) splices the elements in.  Which of the two a token
+# is, is decided by `SymbolReferenceOrStringParser.parse`: only a plain (unquoted) token that is exactly one
+# reference is a bare reference.  That function is under contract in C09 (string syntax); the contract carries C08
+# too and is re-proved by this check.  (After the seeded change C08-s3, which treated `"@[l]@"` as a bare reference.)
+
+def _share_string_or_reference():
+    from contracts.common import share_contracts
+    share_contracts('C08', 'contracts.C09_strings',
+                    lambda q: q.endswith(':SymbolReferenceOrStringParser.parse'))
+    # (parse_fragments_from_token, with its two listed findings on mixed quoting, stays with C09)
+
+
+M.after_load = _share_string_or_reference
